@@ -27,6 +27,7 @@ import json
 from . import sched_common as sc
 from . import c01 as c01e
 from . import c06 as c06e
+from . import pkgorder
 from .. import common
 from ..schedlib import model_request, run_impl
 
@@ -362,9 +363,24 @@ def run(ctx, res):
     for _ in range(ctx.n(160, 1500)):
         spec = c06e.gen_case(ctx.rng)
         check_connect(ctx, spec, res, ctx.n(4, 6))
+    # the package's own callback components, with callbacks that count their calls, under all listings
+    for _ in range(ctx.n(40, 600)):
+        c = pkgorder.gen(ctx.rng)
+        res.case(c, True)
+        res.count("part", "pkg-components")
+        o = pkgorder.check(c)
+        if o:
+            res.fail(c, o[0], o[1])
 
 
 def search(ctx, res, divergences, broken):
+    for _ in range(150):
+        c = pkgorder.gen(ctx.rng)
+        res.case(c, True)
+        o = pkgorder.check(c)
+        if o:
+            res.fail(c, o[0], o[1])
+            return
     for d in divergences:
         c = d.get("case") or {}
         if "comps" in c and "links" in c:
@@ -396,6 +412,8 @@ def _differs(case):
 
 def shrink(ctx, f):
     case = f["case"]
+    if case.get("part") == "pkg":
+        return f
     if "spec" not in case:
         return f
     sig = f.get("signature")
@@ -432,6 +450,9 @@ def shrink(ctx, f):
 
 def replay(ctx, rp):
     case = rp.get("input")
+    if case is not None and case.get("part") == "pkg":
+        o = pkgorder.check(case)
+        return {"fails": bool(o), "difference": o}
     if case is None:
         d = (rp.get("diverging_case") or {}).get("case") or {}
         if "links" in d:
